@@ -60,9 +60,12 @@ def gen_triple(rng):
         down = nom / rng.uniform(1, 1e3)
     elif kind < 0.93:
         up = down = nom
-    else:
+    elif kind < 0.965:
         up = nom * (1 + rng.uniform(0.005, 0.8))
         down = nom
+    else:  # the up variation leaves the bin unchanged, the down variation does not
+        up = nom
+        down = nom * (1 + rng.choice([-1, 1]) * rng.uniform(0.005, 0.8))
     return float(down), float(nom), float(up)
 
 
